@@ -853,7 +853,7 @@ def case_fzn(r, i, d):
 # ================================================================================================
 # C20: byte-level reproducibility of the CLI
 
-MASK = [(re.compile(r"(timeSpentInSolver|time_spent_in_solver|solveTime|initTime)=\S+"), r"\1=<t>"),
+MASK = [(re.compile(r"(\w*[Tt]ime\w*)=\S+"), r"\1=<t>"),
         (re.compile(r"\b\d{4}-\d{2}-\d{2}T\d{2}:\d{2}:\d{2}\S*"), "<ts>"),
         (re.compile(r"\[\d{2}:\d{2}:\d{2}[^\]]*\]"), "[<ts>]")]
 
